@@ -23,3 +23,55 @@ func syncFloatPrec(v0, v1 *slip.LongFloat) {
 		_, _, _ = (*big.Float)(v1).Parse(s, 10)
 	}
 }
+
+// normalizeReals is slip.NormalizeNumber() for comparisons. When a float is
+// paired with an integer or ratio, or a ratio with an integer, both are
+// converted to a ratio, which is exact for any finite real, instead of
+// rounding one of them to a float so the results compare as the exact values
+// of the originals do.
+func normalizeReals(v0, v1 slip.Object) (slip.Object, slip.Object) {
+	_, f0 := v0.(slip.Float)
+	_, f1 := v1.(slip.Float)
+	_, r0 := v0.(*slip.Ratio)
+	_, r1 := v1.(*slip.Ratio)
+	if f0 != f1 || r0 != r1 {
+		if x0, x1 := exactRatio(v0), exactRatio(v1); x0 != nil && x1 != nil {
+			return x0, x1
+		}
+	}
+	return slip.NormalizeNumber(v0, v1)
+}
+
+// exactRatio returns the exact value of a real as a ratio or nil if the value
+// is not a finite real.
+func exactRatio(v slip.Object) (r *slip.Ratio) {
+	var z big.Rat
+	switch tv := v.(type) {
+	case slip.Fixnum:
+		r = (*slip.Ratio)(z.SetInt64(int64(tv)))
+	case slip.Octet:
+		r = (*slip.Ratio)(z.SetInt64(int64(tv)))
+	case *slip.Bignum:
+		r = (*slip.Ratio)(z.SetInt((*big.Int)(tv)))
+	case *slip.Ratio:
+		r = tv
+	case slip.SingleFloat:
+		if z.SetFloat64(float64(tv)) != nil {
+			r = (*slip.Ratio)(&z)
+		}
+	case slip.DoubleFloat:
+		if z.SetFloat64(float64(tv)) != nil {
+			r = (*slip.Ratio)(&z)
+		}
+	case *slip.LongFloat:
+		if !(*big.Float)(tv).IsInf() {
+			_, _ = (*big.Float)(tv).Rat(&z)
+			r = (*slip.Ratio)(&z)
+		}
+	case *slip.SignedByte:
+		r = exactRatio(tv.AsFixOrBig())
+	case *slip.UnsignedByte:
+		r = exactRatio(tv.AsFixOrBig())
+	}
+	return
+}
